@@ -465,6 +465,17 @@ def do_op(lab, side, op, content):
                 return ("noop", op)
             p.rename(i.oid, root + dst)
             return ("rename", src, dst)
+        if op == "mkdir_a":
+            if info("/a"):
+                return ("noop", op)
+            p.mkdir(root + "/a")
+            return ("mkdir", "/a")
+        if op == "rmdir_a":
+            i = info("/a")
+            if not i or i.otype.value != "dir" or list(p.listdir(i.oid)):
+                return ("noop", op)
+            p.delete(i.oid)
+            return ("rmdir", "/a")
         if op == "mkdir_d":
             if info("/d"):
                 return ("noop", op)
